@@ -5,6 +5,7 @@ package watch
 import (
 	"context"
 	"errors"
+	"os"
 	"time"
 
 	"github.com/fsnotify/fsnotify"
@@ -215,6 +216,25 @@ func c20ExecuteSlow(e *executor.DefaultExecutor, ctx context.Context, job *execu
 
 func c20OpString(op fsnotify.Op) string { return "op" }
 
+type c20Info struct{ dir bool }
+
+func (i c20Info) Name() string       { return "x" }
+func (i c20Info) Size() int64        { return 0 }
+func (i c20Info) Mode() os.FileMode  { return 0 }
+func (i c20Info) ModTime() time.Time { return time.Time{} }
+func (i c20Info) IsDir() bool        { return i.dir }
+func (i c20Info) Sys() interface{}   { return nil }
+
+func c20Stat(name string) (os.FileInfo, error) {
+	switch name {
+	case "d", "d/sub":
+		return c20Info{dir: true}, nil
+	case "d/sub/f.txt", "g.txt":
+		return c20Info{}, nil
+	}
+	return nil, rt.ErrorNew("no such file or directory")
+}
+
 var c20EvPaths = []string{"f0", "f1", "f2", "f3"}
 
 // VerifC20Loop: the real Watcher.Run (registration, first run of the task, polling loop, handler
@@ -231,7 +251,12 @@ func VerifC20Loop(nEvents, preempt, mask int) {
 	rt.Redirect("(*github.com/taskctl/taskctl/pkg/executor.DefaultExecutor).Execute", c20ExecuteSlow)
 	rt.Redirect("github.com/taskctl/taskctl/pkg/executor.NewDefaultExecutor", c20NewExecutor)
 	rt.Redirect("github.com/taskctl/taskctl/pkg/utils.RenderString", c20Render)
-	c20Inc = [][]bool{{true, true, false}}
+	// the selected paths: a directory, a file two levels below it (inotify is not recursive: it needs
+	// its own watch) and a plain file; code that consults the file system gets this tree
+	c20Paths = []string{"d", "d/sub/f.txt", "g.txt"}
+	c20Inc = [][]bool{{true, true, true}}
+	rt.Redirect("os.Stat", c20Stat)
+	rt.Redirect("os.Lstat", c20Stat)
 	c20Added, c20Started, c20Execs = nil, nil, nil
 	var events []string
 	sub := make([]bool, 5)
@@ -280,7 +305,13 @@ func VerifC20Loop(nEvents, preempt, mask int) {
 	w.Close()
 	rt.WaitThreads()
 	rt.Assert(returned, "C20.loop.Run-returns-after-Close")
-	rt.Assert(rt.And(len(c20Added) >= 2, c20Added[0] == "p0", c20Added[1] == "p1"), "C20.loop.every-selected-path-is-registered")
+	for _, sel := range c20Paths {
+		found := false
+		for _, a := range c20Added {
+			found = found || a == sel
+		}
+		rt.Assert(found, "C20.loop.every-selected-path-is-registered")
+	}
 	lastSub := -1
 	for n := 0; n < nEvents; n++ {
 		if rt.Or(rt.Not(any), sub[tys[n]]) {
